@@ -35,9 +35,9 @@ Tok(ql) == Lit(ql.tag, ql.text)
 Lits == {QLit("Str", b, q) : b \in StrBodies, q \in L!Quotes}
         \cup {QLit("Num", t, "") : t \in NumTexts}
         \cup {QLit("true", <<>>, ""), QLit("false", <<>>, ""), QLit("null", <<>>, "")}
-Partners == {QLit("Str", <<"a">>, "'"), QLit("Num", <<"1">>, ""), QLit("Str", <<"\\", "t">>, "\"")}
-            \cup (IF Big THEN {QLit("Str", <<"1">>, "\""), QLit("null", <<>>, ""), QLit("true", <<>>, ""),
-                               QLit("Str", <<"\\", "\\", "n">>, "'"), QLit("Num", <<"0">>, "")} ELSE {})
+Partners == {QLit("Str", <<"a">>, "'"), QLit("Num", <<"1">>, "")}
+            \cup (IF Big THEN {QLit("Str", <<"\\", "t">>, "\""), QLit("Str", <<"1">>, "\""), QLit("null", <<>>, ""),
+                               QLit("Str", <<"\\", "\\", "n">>, "'")} ELSE {})
 
 \* ---- subjects: descriptors [k, s, t, a] (s: bytes of a string, t: JSON spelling of a
 \* number or of true/false/null, a: elements)
@@ -60,8 +60,8 @@ SubjStrings == SeqsUpTo(SubjAlpha, MaxSubj) \cup StrBodies
 SubjNums == {Chars(s) : s \in {"0", "1", "2", "1.5", "10", "0.5", "100", "-1", "1.25", "12", "20", "7", "0.05"}}
 ScalarSubjects == {DStr(s) : s \in SubjStrings} \cup {DNum(t) : t \in SubjNums}
                   \cup {DWord(Chars("true")), DWord(Chars("false")), DWord(Chars("null"))}
-ArraySubjects == {DArr(<<>>), DArr(<<DNum(<<"1">>)>>), DArr(<<DStr(<<"a">>)>>),
-                  DArr(<<DStr(<<"a">>), DNum(<<"7">>)>>), DArr(<<DArr(<<DStr(<<"a">>)>>), DNum(<<"7">>)>>)}
+ArraySubjects == {DArr(<<>>), DArr(<<DStr(<<"a">>)>>), DArr(<<DArr(<<DStr(<<"a">>)>>), DNum(<<"7">>)>>)}
+                 \cup (IF Big THEN {DArr(<<DNum(<<"1">>)>>), DArr(<<DStr(<<"a">>), DNum(<<"7">>)>>)} ELSE {})
 Subjects == ScalarSubjects \cup ArraySubjects
 \* the value of every subject, computed once
 ValOf == [d \in Subjects |-> Val(d)]
